@@ -688,7 +688,7 @@ def corpus(ctx):
         ("xlsb@1048575:16383", benv, "refn r 1 1 1 1"),                                      # XFD1048576: +1 / +1 wraps to A1
         ("xlsb@5:5", benv, "refn r 3 2 0 0"),                                                # absolute: $C$4 from anywhere
         ("xlsb@5:5", benv, "refn r 4294967293 16382 1 1"),                                   # -3 / -2: D3
-        ("xlsb@5:300", benv, "refn a 7 2 0 1"),                                              # mixed: KR$8 (col 302)
+        ("xlsb@5:300", benv, "refn a 7 2 0 1"),                                              # mixed: KQ$8 (col 302)
         ("xlsb@70000:5", benv, "refn v 1048574 0 1 0"),                                      # row offset +1048574 = -2: $A69999
         ("xlsb", benv, "refn r 0 0 1 1"),                                                    # no base cell: refused (not wf)
     ] + [
